@@ -9,6 +9,7 @@ import (
 
 	"github.com/glebziz/fs_db/internal/model"
 	"github.com/glebziz/fs_db/internal/utils/os"
+	"github.com/glebziz/fs_db/internal/verifhook"
 )
 
 const (
@@ -28,6 +29,8 @@ func Usage(ctx context.Context, path string) (*model.Stat, error) {
 	if err != nil {
 		return nil, fmt.Errorf("usage with context: %w", err)
 	}
+
+	st.Free = verifhook.Free(path, st.Free)
 
 	return &model.Stat{
 		Path:  st.Path,
